@@ -44,6 +44,12 @@ def tasks(tier):
         t.append((M, "ms_state", dict(norb=3, nu=2, nd=1, ref=ref)))
     for ref in (0, 4, 8):
         t.append((M, "ms_state", dict(norb=3, nu=1, nd=1, ref=ref, restricted=True)))
+    # spaces with same-spin double excitations (norb 4), non-aufbau references; parity convention exhaustively
+    for ref in (0, 23, 11, 17):
+        t.append((M, "ms_state", dict(norb=4, nu=2, nd=1, ref=ref)))
+    for ref in (35, 20):
+        t.append((M, "ms_state", dict(norb=4, nu=2, nd=2, ref=ref, restricted=True)))
+    t.append((M, "ms_parity", dict(norb_max=5)))
     for w in ("overlap", "conj"):
         t.append((W, "canary", dict(which=w)))
     return t
